@@ -440,8 +440,13 @@ def run_prune(pe, acc, case):
     # the projection formula itself, also for non-symmetric target matrices and with undefined timeslices:
     # G'_ij(t) = v_i^T G(t) v_j with the vectors of the (symmetrised) GEVP at (t0proj, tproj)
     for variant, kw in (('nonsymmetric', {'antisym': 0.02}), ('undefined', {'undefined': (0, T - 2)}), ('nonsymmetric+undefined', {'antisym': 0.02, 'undefined': (T - 3,)}),
-                        ('nonsymmetric+first-undefined', {'antisym': 0.02, 'undefined': (0,)})):
+                        ('nonsymmetric+first-undefined', {'antisym': 0.02, 'undefined': (0,)}),
+                        ('undefined-as-array-of-None', {'undefined': (T - 2,), 'none_array': True})):
+        none_array = kw.pop('none_array', False)
         G = make_corr(pe, N, T, 'prune', **kw)
+        if none_array:       # the other representation of an undefined timeslice that GEVP accepts: an N x N array filled with None
+            for t in kw['undefined']:
+                G.content[t] = np.full((N, N), None, dtype=object)
         for Ntrunc in range(1, N):
             t0proj, tproj = 1, 2
             sub = dict(case, Ntrunc=Ntrunc, variant=variant)
@@ -453,7 +458,7 @@ def run_prune(pe, acc, case):
                 continue
             bad = None
             for t in range(T):
-                if G.content[t] is None:
+                if G.content[t] is None or all(x is None for x in np.ravel(G.content[t])):
                     if P.content[t] is not None:
                         bad = 'timeslice %d is defined in the pruned correlator but undefined in the input' % t
                     continue
